@@ -519,3 +519,18 @@ Proof.
   - intros F. destruct b as [lo hi]. cbn [blo bhi fst snd] in *.
     destruct (pad_nonpositive lo v L F) as [-> _]. destruct (pad_nonpositive hi v) as [_ ->]; auto. lia.
 Qed.
+
+(* ------------------------------------------------------------------ unit_cube *)
+Lemma vsub_repeat (a b : R) n : vsub RO (repeat a n) (repeat b n) = repeat (a - b) n.
+Proof. induction n; [reflexivity|]. cbn [repeat]. change (vsub RO (a :: repeat a n) (b :: repeat b n)) with ((a - b) :: vsub RO (repeat a n) (repeat b n)). rewrite IHn. reflexivity. Qed.
+Lemma repeat_nonempty (a b : R) n : a <= b -> all2 (fun l h => l <= h) (repeat a n) (repeat b n).
+Proof. intros H. induction n; simpl; auto. Qed.
+Lemma box_unit_cube (n : nat) (c : bool) (b : box R) :
+  aabb_unit_cube R RO n c = Ret b -> bdim b = n /\ nonempty b /\ aabb_span R RO b = repeat 1 n.
+Proof.
+  unfold aabb_unit_cube. cbv zeta. unfold vfull, oQ. cbn [odiv oZ RO Rops].
+  destruct c; intros H; apply init_ret in H as [-> _]; unfold bdim, nonempty, aabb_span; cbv zeta; cbn [blo bhi fst snd];
+    rewrite repeat_length, vsub_repeat; (split; [reflexivity|split; [apply repeat_nonempty; lra|f_equal; lra]]).
+Qed.
+Example unit_cube_ex : exists b, aabb_unit_cube R RO 3 true = Ret b.
+Proof. eexists. unfold aabb_unit_cube. cbv zeta. reflexivity. Qed.
